@@ -28,6 +28,31 @@ var c09Blocks = []string{
 	`<iframe src="https://www.youtube.com/embed/abc"></iframe>`,
 	`<p>line one<br>line two</p>`,
 	`<img src="" srcset="">`,
+	`<img src="i3.png" srcset="/w_300,h_200/x.jpg 1x, /w_600,h_400/x.jpg 2x">`,
+}
+
+// c09Srcset is the harness's own reading of a srcset attribute (the library's
+// parser is the code under test): white-space separated tokens, a token that is
+// a width/density descriptor is skipped, a trailing comma ends a candidate.
+func c09Srcset(v string) []string {
+	var out []string
+	for _, f := range strings.Fields(v) {
+		f = strings.TrimSuffix(f, ",")
+		if f == "" {
+			continue
+		}
+		last := f[len(f)-1]
+		isDesc := (last == 'x' || last == 'w') && len(f) > 1
+		for _, c := range f[:len(f)-1] {
+			if !(c >= '0' && c <= '9') && c != '.' {
+				isDesc = false
+			}
+		}
+		if !isDesc {
+			out = append(out, f)
+		}
+	}
+	return out
 }
 
 type c09Counter struct{}
@@ -39,7 +64,7 @@ func c09Imgs(n *html.Node, into *[]string) {
 		if src := dom.GetAttribute(n, "src"); src != "" {
 			*into = append(*into, src)
 		}
-		*into = append(*into, domutil.GetSrcSetURLs(n)...)
+		*into = append(*into, c09Srcset(dom.GetAttribute(n, "srcset"))...)
 	}
 	for c := n.FirstChild; c != nil; c = c.NextSibling {
 		c09Imgs(c, into)
